@@ -285,10 +285,20 @@ static std::string exec(const std::vector<std::string> &w) {
     return reg(g, graphs[g]->add_operator(std::move(u), {}), false);
   }
   if (op == "failin" && w.size() == 2) { g_fail_in = static_cast<i64>(vh::to_u64(w[1])); return "ok"; }
-  if ((op == "force" || op == "backward") && w.size() == 2) {
+  if ((op == "force" || op == "backward" || op == "gforce" || op == "gbackward") && w.size() == 2) {
     Node &n = node_of(w[1]);
+    Graph &own = *graphs[nodes[vh::to_u64(w[1].substr(1))].g];   // the g-variants enter through the Graph, as the C API does
     std::size_t mark = g_log.size();
     try {
+      if (op == "gforce") {
+        std::vector<float> f = own.forward(n).to_vector();
+        std::vector<i64> v(f.begin(), f.end());
+        return "ok " + csv(v) + " | " + log_since(mark);
+      }
+      if (op == "gbackward") {
+        own.backward(n);
+        return "ok | " + log_since(mark);
+      }
       if (op == "force") {
         std::vector<float> f = n.to_vector();
         std::vector<i64> v(f.begin(), f.end());
